@@ -48,7 +48,7 @@ def build_model(name, dt, continuous=False):
     if name == "combined":
         # the overwritten parameters have time-varying data in every population (two data years): a scenario on one population must leave the
         # ramp of the other populations alone
-        spec = simspace.combined_spec(dt, v={"t": [S0, S0 + 2.0], "v": [0.3, 0.12]}, dur=1.0, tj=0.2, pa=0.3, d=0.01, br=5.0, prog=True)
+        spec = simspace.combined_spec(dt, v={"t": [S0, S0 + 1.0, S0 + 2.0], "v": [0.3, 0.27, 0.12]}, dur=1.0, tj=0.2, pa=0.3, d=0.01, br=5.0, prog=True)
         spec["progs"]["instr"] = dict(start=S0)
     elif name == "agg":
         spec = next(s for s in simspace.pops("quick") if s["sim"][2] == dt and any(p["name"] == "foi" for p in s["pars"])) if dt in simspace.DTS["quick"] else None
@@ -62,7 +62,7 @@ def build_model(name, dt, continuous=False):
 
 
 KINDS = {
-    "combined": ["prog_start", "budget", "capacity", "coverage", "budget_scalar_insert", "capacity_scalar_insert", "coverage_scalar_insert", "capacity_continuous", "budget_continuous", "stop", "extend_scen:vr:linear", "extend_scen:vr:previous", "extend_scen:pb:linear"] + [f"scen:{t}:{i}" for t in ("vr", "pb", "pa", "br", "age") for i in ("linear", "previous")] + [f"scen2:{t}:{i}" for t in ("pb", "vr") for i in ("linear", "previous")] + [f"scen_chain:{t}:{i}" for t in ("vr", "pb") for i in ("linear", "previous")] + ["extend"],
+    "combined": ["prog_start", "budget", "capacity", "coverage", "budget_scalar_insert", "capacity_scalar_insert", "coverage_scalar_insert", "capacity_continuous", "budget_continuous", "stop", "extend_scen:vr:linear", "extend_scen:vr:previous", "extend_scen:pb:linear"] + [f"scen:{t}:{i}" for t in ("vr", "pb", "pa", "br", "age") for i in ("linear", "previous")] + [f"scen2:{t}:{i}" for t in ("pb", "vr") for i in ("linear", "previous")] + [f"scen_chain:{t}:{i}" for t in ("vr", "pb") for i in ("linear", "previous")] + [f"scen_pchip:{t}:{i}" for t in ("vr", "br") for i in ("linear", "previous")] + ["scenario_object_reuse:budget", "scenario_object_reuse:coverage", "extend"],
     "agg": [f"scen:{t}:{i}" for t in ("mix", "rec") for i in ("linear", "previous")] + [f"scen2:{t}:{i}" for t in ("inf", "foi") for i in ("linear", "previous")] + [f"scen_chain:{t}:{i}" for t in ("inf", "foi") for i in ("linear", "previous")] + ["extend"],
     "state": ["prog_start", "budget", "capacity", "coverage", "budget_scalar_insert", "stop", "extend_scen:p1:linear", "extend_scen:drv:linear"] + [f"scen:{t}:{i}" for t in ("p1", "drv", "p2") for i in ("linear", "previous")] + [f"scen_chain:{t}:{i}" for t in ("p1", "drv") for i in ("linear", "previous")] + ["extend"],
 }
@@ -163,6 +163,35 @@ def run_case(case):
 
     def instr(**kw):
         return at.ProgramInstructions(**kw)
+
+    if kind.startswith("scen_pchip:"):
+        # the parameter set uses another fallback interpolation for its data (what migrated legacy projects carry)
+        for par in w.parset.all_pars():
+            par._interpolation_method = "pchip"
+        kind = "scen:" + kind.split(":", 1)[1]
+    if kind.startswith("scenario_object_reuse:"):
+        # a Budget / Coverage scenario OBJECT is run, its start year is moved, and it is run again: programs are inactive before the current start year
+        which = kind.split(":")[1]
+        first = sorted(progs0)[0]
+        s0 = progs0[first]["spend"]
+        base = w.run(progs=False)
+        a = arrays(base)
+        if which == "budget":
+            scen = at.BudgetScenario(name="b", alloc={first: 5 * s0}, start_year=float(t[0]))
+        else:
+            scen = at.CoverageScenario(name="c", coverage={first: 0.7}, start_year=float(t[0]))
+        for Y in ys(t, dt):
+            scen.start_year = Y
+            r2 = scen.run(w.P, w.parset, w.progset, store_results=False)
+            b2 = arrays(r2)
+            v, n = compare_before(a, b2, t, Y, f"{lab0} scenario object re-used with start year Y={Y!r}")
+            eff += differs(a, b2)
+            vs += v
+            states += n
+            trans += 1
+            if len(vs) >= 3:
+                break
+        return dict(states=states, transitions=trans, nontrivial=eff > 0, violations=vs[:3], counters=dict(pairs=trans, pairs_with_effect=eff))
 
     if kind == "extend":
         base = w.run(progs=bool(w.progset))
